@@ -122,7 +122,7 @@ def _qft(wires):
     return st.integers(1, min(4, len(wires))).flatmap(lambda k: gen.subset(wires, k)).map(lambda w: {"op": "QFT", "p": [], "w": w})
 
 
-@reg("Permute", 2, "unitary", "matrix", "template")
+@reg("Permute", 2, "template", "decomp")
 def _permute(wires):
     return st.integers(2, min(4, len(wires))).flatmap(lambda k: gen.subset(wires, k)).flatmap(
         lambda w: st.permutations(w).map(lambda p: {"op": "Permute", "p": [], "w": w, "kw": {"permutation": list(p)}}))
@@ -133,14 +133,14 @@ def _grover(wires):
     return st.integers(2, min(4, len(wires))).flatmap(lambda k: gen.subset(wires, k)).map(lambda w: {"op": "GroverOperator", "p": [], "w": w})
 
 
-@reg("FlipSign", 1, "unitary", "matrix", "template")
+@reg("FlipSign", 1, "template", "decomp")
 def _flipsign(wires):
     return st.integers(1, min(3, len(wires))).flatmap(
         lambda k: st.tuples(st.lists(st.integers(0, 1), min_size=k, max_size=k), gen.subset(wires, k))).map(
         lambda t: {"op": "FlipSign", "p": [], "w": t[1], "kw": {"state": t[0]}})
 
 
-@reg("BasisRotation", 2, "unitary", "matrix", "template")
+@reg("BasisRotation", 2, "template", "decomp")
 def _basis_rotation(wires):
     return st.integers(2, min(3, len(wires))).flatmap(lambda k: st.tuples(gen.float_list(6), gen.subset(wires, k))).map(
         lambda t: {"op": "BasisRotation", "p": [], "w": t[1], "kw": {"unitary_matrix": {"Udim": t[0], "d": len(t[1])}}})
